@@ -289,6 +289,82 @@ fn fuzz_triage(id: &str, target: &str, file: &str) -> i32 {
     1
 }
 
+/// `dltverif run` runs the check in a child process.  A child that ends by itself decides (its exit code is passed
+/// on).  A child that dies by a signal (abort after a stack overflow, segmentation fault: failures no `catch_unwind`
+/// stops) is started once more with case tracking; the cases that were in flight when it died again are re-judged one by
+/// one in further child processes, and a case whose replay dies as well is reported as a violation with that replay file.
+fn supervise(id: &str, tier: &str, root: &std::path::Path) -> i32 {
+    use std::process::{Command, Stdio};
+    let exe = std::env::current_exe().expect("current_exe");
+    let status = Command::new(&exe).args(["run", id, tier]).env("DLTVERIF_INNER", "1").status();
+    let died = |st: &std::io::Result<std::process::ExitStatus>| -> Option<String> {
+        match st {
+            Ok(s) => match s.code() {
+                Some(c) if c <= 2 => None,
+                Some(c) => Some(format!("exit code {}", c)),
+                None => {
+                    use std::os::unix::process::ExitStatusExt;
+                    Some(format!("signal {}", s.signal().unwrap_or(0)))
+                }
+            },
+            Err(e) => Some(format!("could not be started: {}", e)),
+        }
+    };
+    let Some(how) = died(&status) else {
+        return status.ok().and_then(|s| s.code()).unwrap_or(2);
+    };
+    eprintln!("[{}] the check process died ({}); running it once more with case tracking", id, how);
+    let out = std::env::var("DLTVERIF_OUT").map(std::path::PathBuf::from).unwrap_or_else(|_| root.to_path_buf());
+    let dir = out.join("work").join(format!("track-{}-{}", id, std::process::id()));
+    let _ = std::fs::remove_dir_all(&dir);
+    if std::fs::create_dir_all(&dir).is_err() {
+        println!("INCONCLUSIVE property={} the check process died ({}) and no tracking directory could be created", id, how);
+        return 2;
+    }
+    let second = Command::new(&exe)
+        .args(["run", id, tier])
+        .env("DLTVERIF_INNER", "1")
+        .env("DLTVERIF_TRACK", &dir)
+        .env("DLTVERIF_TRACK_PROP", id)
+        .env("DLTVERIF_SKIP_REGRESSIONS", "1")
+        .stdout(Stdio::null())
+        .status();
+    let mut verdict = 2;
+    if died(&second).is_none() {
+        println!("INCONCLUSIVE property={} the check process died ({}) but a second run with the same seed ended normally; not a verdict", id, how);
+    } else {
+        let mut files: Vec<_> = std::fs::read_dir(&dir).map(|d| d.filter_map(|e| e.ok().map(|e| e.path())).collect()).unwrap_or_default();
+        files.sort();
+        let mut confirmed = None;
+        for f in &files {
+            let st = Command::new(&exe).args(["replay", id]).arg(f).stdout(Stdio::null()).stderr(Stdio::null()).status();
+            if let Some(h) = died(&st) {
+                confirmed = Some((f.clone(), h));
+                break;
+            }
+        }
+        match confirmed {
+            Some((f, h)) => {
+                let text = std::fs::read_to_string(&f).unwrap_or_default();
+                let mut body: Value = serde_json::from_str(&text).unwrap_or(Value::Null);
+                body["signature"] = Value::String("process-death".to_string());
+                body["violation"] = Value::String(format!("evaluating this case kills the process ({}): a failure that cannot be caught, e.g. a stack overflow or an out-of-bounds access", h));
+                let rdir = out.join("replays");
+                let _ = std::fs::create_dir_all(&rdir);
+                let section = body["section"].as_str().unwrap_or("").to_string();
+                let path = rdir.join(format!("{}-{}-process-death-{:016x}.json", id, section, dltverif::util::hash_str(&text)));
+                let _ = std::fs::write(&path, serde_json::to_string_pretty(&body).unwrap_or(text));
+                println!("VIOLATION property={} replay={}", id, path.display());
+                println!("  evaluating the case kills the process ({}); replay with: dltverif replay {} <file>", h, id);
+                verdict = 1;
+            }
+            None => println!("INCONCLUSIVE property={} the check process died twice ({}) but none of the {} cases in flight kills a process of its own; not a verdict", id, how, files.len()),
+        }
+    }
+    let _ = std::fs::remove_dir_all(&dir);
+    verdict
+}
+
 fn usage() -> ! {
     eprintln!("usage: dltverif run <Cxx> <quick|thorough> | dltverif replay <Cxx> <file>");
     std::process::exit(2)
@@ -315,6 +391,9 @@ fn main() {
                 eprintln!("unknown property {}", id);
                 std::process::exit(2)
             };
+            if std::env::var("DLTVERIF_INNER").is_err() {
+                std::process::exit(supervise(p.id, &args[3], &root()));
+            }
             // a logger at Trace level is installed for every check: the argument expressions of dlt-core's log calls
             // (several of them slice the input) are evaluated as they are in an application that logs
             dltverif::oracle::install_logger();
@@ -356,6 +435,7 @@ fn main() {
                 std::process::exit(2)
             });
             dltverif::oracle::install_logger();
+            dltverif::oracle::SINK_ALWAYS.store(true, std::sync::atomic::Ordering::Relaxed);
             let section = body["section"].as_str().unwrap_or("");
             let result = if section.starts_with("fuzz-") {
                 fuzz_replay(p.id, section, &body["case"])
